@@ -506,7 +506,7 @@ def batches(ctx):
     if getattr(ctx, "replay_case", None) is not None:
         cases, n_small = [ctx.replay_case], 0
     elif ctx.quick():
-        cases, n_small = make_cases(ctx, (3, 3), n_mid=50, cap_mid=30, n_rand=250)
+        cases, n_small = make_cases(ctx, (3, 3), n_mid=110, cap_mid=30, n_rand=600)
     else:
         cases, n_small = make_cases(ctx, (3, 3), n_mid=600, cap_mid=60, n_rand=4000)
     kinds = {"V": 0, "H": 0, "plain": 0, "ordered": 0, "unordered": 0}
